@@ -58,7 +58,8 @@ def encode : Msg → Bytes
 
 def decTemp (hasSensor : Bool) (b56 : Nat) : Option Int :=
   let enc := b56 / 32 * 32        -- `byte56 & 0xFFE0`
-  if !hasSensor || enc = TEMP_UNAVAILABLE then none
+  -- `(byte56 & 0xFF00) == _TEMP_UNAVAILABLE`: not available whenever Byte5 is 0xff
+  if !hasSensor || b56 / 256 * 256 = TEMP_UNAVAILABLE then none
   else some ((enc / 32 : Nat) - 500)
 
 def decRec (bs : Bytes) : Except DecErr (GroupStatusData × Bytes) :=
@@ -112,7 +113,7 @@ def WFRec (g : GroupStatusData) : Prop :=
   g.group_number < 64 ∧ g.damper_percentage < 128 ∧
   (g.has_sensor = true → ∃ sp, g.set_point = some sp ∧ sp < 64) ∧
   (g.has_sensor = false → g.set_point = none ∧ g.temperature = none) ∧
-  (∀ t, g.temperature = some t → -500 ≤ t ∧ t ≤ 1547 ∧ t ≠ 1540)
+  (∀ t, g.temperature = some t → -500 ≤ t ∧ t ≤ 1539)
 
 def WF : Msg → Prop
   | .request => True
@@ -127,7 +128,7 @@ def wfRecBool (g : GroupStatusData) : Bool :=
    | false, none, none => true
    | false, _, _ => false) &&
   (match g.temperature with
-   | some t => decide (-500 ≤ t) && decide (t ≤ 1547) && decide (t ≠ 1540)
+   | some t => decide (-500 ≤ t) && decide (t ≤ 1539)
    | none => true)
 
 def wfBool : Msg → Bool
